@@ -136,6 +136,10 @@ def source_sink_site(draw, tier):
     ]
     if draw(st.booleans()):
         utils.append({"name": "LP", "type": "Both", "t_supply": lvl - 40.0, "t_target": lvl - 40.0, "heat_flow": None, "dt_cont": dtb, "htc": 1.0, "price": 10.0, "active": True})
+    if draw(st.booleans()):
+        # a second way of raising utility on (almost) the same level as MP: an export line within the 1 K matching window
+        off = draw(st.sampled_from([0.0, 0.3, 0.6]))
+        utils.append({"name": "MP export", "type": "Cold", "t_supply": round(lvl - 0.5 - off / 2, 3), "t_target": round(lvl + off / 2, 3), "heat_flow": None, "dt_cont": dtb, "htc": 1.0, "price": 1.0, "active": True})
     return {"streams": streams, "utilities": draw(st.permutations(utils))}
 
 
